@@ -9,6 +9,7 @@ pub mod statics;
 pub mod store;
 pub mod util;
 pub mod h_dynamic;
+pub mod h_iccma;
 pub mod h_indep;
 pub mod h_layout;
 pub mod h_problem;
